@@ -125,6 +125,15 @@ def _count_form(f: Func, value: ast.AST, start: str | None) -> bool:
     return ok_shape and _is_counter(f, other)
 
 
+def _single_def(f: Func, e: ast.AST) -> ast.AST:
+    """A local with one definition stands for that definition (defEnd = startLine + lines + 1; state.line = defEnd)."""
+    if isinstance(e, ast.Name):
+        ds = [n.value for n in own_nodes(f.node) if isinstance(n, ast.Assign) and any(isinstance(t, ast.Name) and t.id == e.id for t in n.targets)]
+        if len(ds) == 1:
+            return ds[0]
+    return e
+
+
 def _members(c: Ctx) -> tuple[list[Func], Func]:
     rules = []
     for reg in c.reg.rules["block"]:
@@ -566,7 +575,7 @@ def rule_linecap(c: Ctx) -> RuleResult:
                     how = bounded_at([n.id], value, kmax)
                 if how:
                     r.add(key, c.where(f, a), f.short, U(a), "discharged", f"{U(value)} <= {kmax}: {how}")
-                elif (f.short, "count") in LINECAP_EXEMPT and _count_form(f, value, start):
+                elif (f.short, "count") in LINECAP_EXEMPT and (_count_form(f, value, start) or _count_form(f, _single_def(f, value), start)):
                     r.add(key, c.where(f, a), f.short, U(a), "exempt", LINECAP_EXEMPT[(f.short, "count")])
                     exempt_nodes.append(n)
                 else:
